@@ -348,6 +348,11 @@ func (i *Interpreter) validateAndSetParameters(sub *ast.SubroutineDeclaration, a
 				err.Error(),
 			)
 		}
+		// Arguments are passed by value: when no conversion was needed the result is
+		// the caller's own value, so bind a copy of it.
+		if converted == arg {
+			converted = arg.Copy()
+		}
 		i.localVars[param.Name.Value] = converted
 	}
 
